@@ -39,7 +39,8 @@ def run(tier="quick", seed=0, use_cache=True):
         "conversion-free layer (reads translate TypeError to absence), and "
         "the native datatype validates by struct packing and returns the "
         "normalised value on every path. Read-back equality value by value is "
-        "not decided.")
+        "not decided."
+        ' KEY-CHECK-DOM: in the object-key units every store of the key argument is dominated by the comparability check (directly or through a conversion helper that returns non-zero only after it). Explicit range tests in front of a narrowing must be exact.')
     res.assumptions = ["CPython converter contracts (-1 + exception on failure)",
                        "struct.pack range checks for the Python side (interpreter behaviour)"]
     out = engine.map_tus("sa.props.C13", "tu_check", use_cache=use_cache)
